@@ -158,8 +158,11 @@ def processLine (acc : Acc) (line : String) : Acc :=
         let r := handle acc.gov x acc.cur op
         let modelOk := okB r.res
         let modelPost := exec acc.gov x acc.cur op
+        -- a write the model makes must dirty the store; the converse is not demanded: re-writing a nil list as an empty one
+        -- changes the stored bytes but not the parameters (the nil/empty normalisation) — wrong authorities are held to
+        -- "store untouched" by the monitor `authority_first`, not by this comparison
         let branchDiff := !modelOk && !implOk &&
-          (!Spec.sameParams r.st implBranch || (!(isPriv op && op.auth == acc.gov) && bd != decide (r.st ≠ acc.cur)))
+          (!Spec.sameParams r.st implBranch || (!(isPriv op && op.auth == acc.gov) && decide (r.st ≠ acc.cur) && !bd))
         let comps : List String :=
           (if modelOk != implOk then ["outcome"] else []) ++
           (if !Spec.sameParams modelPost implPost then ["params"] else []) ++
